@@ -191,6 +191,30 @@ pub fn gen_world(seed: u64, idx: u64, s: &dyn SuiteOps, chunk: usize, nchunks: u
             }
         }
     }
+    // the response as a deployment may carry it: through bincode / JSON. One substitution per
+    // offset of that encoding (XOR 07 turns a SEC1 tag 02/03 into 05/04; digits are moved by 3)
+    if chunk == 0 {
+        if let Ok(item) = s.decode(Kind::CredResp, Codec::Native, &genuine) {
+            for codec in [Codec::Bincode, Codec::Json] {
+                let Ok(enc) = s.encode(&item, codec) else { continue };
+                let stride = if all_values { 1 } else if codec == Codec::Json { 3 } else { 1 };
+                let first = g.below(stride);
+                for off in (first..enc.len()).step_by(stride) {
+                    let mut x = enc.clone();
+                    if codec == Codec::Json {
+                        if !x[off].is_ascii_digit() {
+                            continue;
+                        }
+                        x[off] = b'0' + (x[off] - b'0' + 3) % 10;
+                    } else {
+                        x[off] ^= 0x07;
+                    }
+                    let out = b.id();
+                    b.push(Op::LoginFinish { out, st: Ref::mem(l.cst), pw: pw1.clone().into(), resp: Ref::Lit { kind: Kind::CredResp, codec, bytes: x.into() }, ctx: ctx.clone().map(Into::into), ids: ids.clone(), ksf: ksf.clone() });
+                }
+            }
+        }
+    }
     for x in cands {
         if x == genuine {
             continue;
@@ -210,7 +234,7 @@ pub fn gen_world(seed: u64, idx: u64, s: &dyn SuiteOps, chunk: usize, nchunks: u
 
 pub fn run(ctx: &Ctx) -> Report {
     let mut rep = Report::new(
-        "per sampled honest login (3 registrations, 2 server setups, donors: other session of the same user, a second response to the same request, other user, fake record, other server, a server with the same OPRF seed and the same password file under another static key): chunk 0 = whole foreign responses, every single-field and field-pair splice from every donor, 4 re-randomisations, zeroing, rotation, 24 XOR-cancelling byte pairs and 12 adjacent transpositions per byte field, reflection (beta := own blinded element), 7 wrong lengths; chunks 1..k = substitution at EVERY offset of the response (quick: all 8 single-bit flips + 1 seeded multi-bit value per offset; thorough: all 255 values per offset, i.e. exhaustive in offset x value); the genuine response is delivered last through native bytes and must be accepted. non-trivial = world contains a predicted rejection; mutated bytes that canonicalise to the genuine response are skipped (alias_skipped) — aliases are C10's business",
+        "per sampled honest login (3 registrations, 2 server setups, donors: other session of the same user, a second response to the same request, other user, fake record, other server, a server with the same OPRF seed and the same password file under another static key): chunk 0 = whole foreign responses, every single-field and field-pair splice from every donor, 4 re-randomisations, zeroing, rotation, 24 XOR-cancelling byte pairs and 12 adjacent transpositions per byte field, reflection (beta := own blinded element), 7 wrong lengths, and one substitution per offset of the response's bincode and JSON encodings (delivered through that codec); chunks 1..k = substitution at EVERY offset of the response (quick: all 8 single-bit flips + 1 seeded multi-bit value per offset; thorough: all 255 values per offset, i.e. exhaustive in offset x value); the genuine response is delivered last through native bytes and must be accepted. non-trivial = world contains a predicted rejection; mutated bytes that canonicalise to the genuine response are skipped (alias_skipped) — aliases are C10's business",
     );
     rep.exhaustive = Some(true);
     let mut suites: Vec<&'static dyn SuiteOps> = SIM_SUITES.to_vec();
